@@ -158,6 +158,7 @@ void h_readInfinity(void) { char* line; int n, off; int* off_out; havoc_ghosts()
 
 /* ======================================================================================================= */
 #ifdef INST_readValue
+/* NOT REGISTERED as an instance: see unit.cpp / props/C13.json "not_covered". */
 #define IS_TOKCHAR(c) (IS_DIGIT(c) || (c) == '+' || (c) == '-' || (c) == '.' || (c) == 'e' || (c) == 'E')
 #define V_CAS ((v_c0 == '+' || v_c0 == '-') ? v_c1 : v_c0)            /* the character behind the optional sign */
 /* *tl_out is the wrapper's witness for the token length T: pos[0..T) is the token, *end_out == pos[T] the character behind it.
